@@ -16,13 +16,17 @@ NOT_APPLICABLE = {
     "C13": "End-to-end inclusion of every submitted transaction at all nodes is a multi-process liveness statement over TCP, timers and RocksDB; "
            "its mechanisms are decided individually under C08/C11/C12, nothing is claimed for C13 itself.",
 }
+NOT_APPLICABLE["C16"] = ("The store's command loop is the body of a closure handed to tokio::spawn; it can only be executed as a boxed task, whose state and "
+                         "command values live in heap objects that CBMC does not constant-propagate: the smallest schedule (one write, one read) did not "
+                         "finish symbolic execution in 400 s / 12 GB (harness kept in kani/harness/store_h.rs, shims/rocksdb). Copying the loop body into a "
+                         "harness would no longer be the real code, so no other encoding is offered.")
 PENDING = "check not built yet in this revision (solver-based harness planned, see DESIGN.md section 4); not claimed until it runs"
 
 
 def main():
     checks = []
     for pid in ALL:
-        if pid not in specs.SPECS:
+        if pid not in specs.SPECS or pid not in specs.READY:
             continue
         s = specs.SPECS[pid]
         checks.append({
@@ -47,7 +51,7 @@ def main():
         })
     na = []
     for pid in ALL:
-        if pid in specs.SPECS:
+        if pid in specs.SPECS and pid in specs.READY:
             continue
         na.append({"property_id": pid, "reason": NOT_APPLICABLE.get(pid, PENDING)})
     man = {
@@ -65,7 +69,7 @@ def main():
             {"name": "kani-overlay", "path": "kani/", "serves_properties": [c["property_id"] for c in checks],
              "kind_free_text": "Kani 0.68/CBMC 6.11 bounded symbolic execution of the repository's real source files compiled against "
                                "environment shims (tokio, store, network, ideal crypto, array-backed hash containers); regenerated from /repo on every run"},
-            {"name": "smt", "path": "smt/", "serves_properties": [p for p in ALL if p in specs.SPECS and specs.SPECS[p].get("engines")],
+            {"name": "smt", "path": "smt/", "serves_properties": [p for p in ALL if p in specs.SPECS and p in specs.READY and specs.SPECS[p].get("engines")],
              "kind_free_text": "z3 / cvc5 queries whose inputs (arithmetic expression from the MIR dump, node-local rule table extracted by Kani) "
                                "are recomputed from /repo's current source on every run"},
         ],
